@@ -30,11 +30,11 @@ EXHAUSTIVE = {"quick": False, "thorough": False}
 SOFT_LIMIT = {"quick": 240, "thorough": 1500}
 REQUIRED_FUNCS = ["sempler/lganm.py:LGANM.sample", "sempler/lganm.py:_parse_interventions", "sempler/lganm.py:LGANM.__init__"]
 REQUIRED_COUNTERS = {"quick": {"judged": 5000, "overlap:do+noise": 100, "overlap:do+shift": 100, "overlap:noise+shift": 100,
-                               "overlap:all-three": 50, "scalar-param": 500, "dtype:int-means-or-variances": 200, "form:None": 100, "form:{}": 100,
+                               "overlap:all-three": 50, "scalar-param": 500, "dtype:int-means-or-variances": 200, "form:None": 100, "form:{}": 100, "form:omitted": 100,
                                "ctor:ranges": 200},
                      "thorough": {"judged": 50000, "overlap:do+noise": 1000, "overlap:do+shift": 1000, "overlap:noise+shift": 1000,
                                   "overlap:all-three": 500, "scalar-param": 5000, "dtype:int-means-or-variances": 2000, "form:None": 1000,
-                                  "form:{}": 1000, "ctor:ranges": 2000}}
+                                  "form:{}": 1000, "form:omitted": 1000, "ctor:ranges": 2000}}
 N = {"quick": {"random": 9000, "dtype": 2500, "ctor": 600}, "thorough": {"random": 1000000, "dtype": 300000, "ctor": 50000}}
 EPS = 2.0 ** -52
 
@@ -117,7 +117,7 @@ def gen(tier, seed, shard, nshards):
             p = int(rng.integers(1, 9))
             W, means, variances = _random_model(rng, p, k % 3)
             d = _random_interventions(rng, p)
-            forms = [("dict" if d[x] else ("{}" if rng.random() < 0.5 else "None")) for x in ("do", "noise", "shift")]
+            forms = [("dict" if d[x] else ["{}", "None", "omitted"][int(rng.integers(3))]) for x in ("do", "noise", "shift")]
             yield "random", {"W": W, "means": means, "variances": variances, "iv": d, "forms": forms}
     # (c) dtypes / container forms
     dts = ["int64", "int32", "float32", "float64", "int8", "uint8", "int16", "float16"]
@@ -152,7 +152,8 @@ def gen(tier, seed, shard, nshards):
 
 def _arg(d, form):
     if form == "dict":
-        return dict(d)
+        # target keys as python ints or numpy ints (both index the arrays identically)
+        return {(np.int64(k) if (k + len(d)) % 3 == 0 else k): v for k, v in d.items()}
     return {} if form == "{}" else None
 
 
@@ -221,8 +222,12 @@ def judge(family, case, rec):
     W0, m0, v0 = W.copy(), means.copy(), variances.copy()
     try:
         model = sempler.LGANM(Warg, means, variances)
-        dist = model.sample(population=True, do_interventions=_arg(d["do"], forms[0]),
-                            noise_interventions=_arg(d["noise"], forms[1]), shift_interventions=_arg(d["shift"], forms[2]))
+        kw = {}
+        for name, dd, form in (("do_interventions", d["do"], forms[0]), ("noise_interventions", d["noise"], forms[1]),
+                               ("shift_interventions", d["shift"], forms[2])):
+            if form != "omitted":
+                kw[name] = _arg(dd, form)
+        dist = model.sample(population=True, **kw)
     except Exception as e:
         key = "C01:exception-" + type(e).__name__
         rec.exception_violation(key, family, case, "LGANM.sample(population=True) raised %s" % type(e).__name__, e)
